@@ -781,6 +781,7 @@ pub fn run_c16(tier: Tier) -> i32 {
                             Job::ClientAge(codec) => crate::c16_hist::client_age_cases(st, codec).await,
                             Job::StubVariant => {
                                 crate::c16_hist::stub_variant_cases(st);
+                                crate::c16_hist::spawned_backlog_cases(st, tier == Tier::Thorough);
                                 crate::c16_hist::limited_bounded_flood_cases(st, 6);
                                 crate::c16_hist::distinct_flood_cases(st, if all_values { 4096 } else { 2048 });
                             }
